@@ -326,3 +326,54 @@ func ZZ_C04_TwoEncodes(codecKind int) {
 	}
 	vrt.Reach("c04-two-encodes-done")
 }
+
+// ZZ_C04_AdjacentPayloads: a sequence of two payloads that are adjacent views of one caller-owned array with
+// spare capacity behind them (what slicing messages out of one read buffer gives): the encodings, produced one
+// after the other, must be the frames of the two payloads as they were before any encoding - an encoder that
+// appends to its argument writes into the neighbour.
+func ZZ_C04_AdjacentPayloads(codecKind int) {
+	n1 := vrt.Choose(3) + 1
+	n2 := vrt.Choose(3) + 1
+	buf := vrt.Bytes(n1 + n2 + 4)
+	snap := append([]byte(nil), buf...)
+	p1 := buf[:n1]
+	p2 := buf[n1 : n1+n2]
+	ectx := &zzCtx{}
+	var enc interface {
+		HandleWrite(ctx netty.OutboundContext, message netty.Message)
+	}
+	hdr, tail := 0, 0
+	switch codecKind {
+	case 0:
+		enc = LengthFieldPrepender(zzOrder(0), 2, 0, false)
+		hdr = 2
+	case 1:
+		enc = VarintLengthFieldCodec(1024)
+		hdr = 1
+	case 2:
+		enc = LengthFieldCodec(zzOrder(1), 1024, 0, 4, 0, 4)
+		hdr = 4
+	case 3:
+		enc = DelimiterCodec(1024, "\n", true)
+		tail = 1
+	case 4:
+		enc = DelimiterCodec(1024, "\r\n", false)
+		tail = 2
+	default:
+		enc = FixedLengthCodec(n1)
+	}
+	enc.HandleWrite(ectx, p1)
+	if codecKind <= 4 || n2 == n1 {
+		enc.HandleWrite(ectx, p2)
+	} else {
+		ectx.out = append(ectx.out, p2)
+	}
+	vrt.Assert(len(ectx.out) == 2, "two-messages-forwarded")
+	w1, ok1 := zzFlatten(ectx.out[0], 64)
+	w2, ok2 := zzFlatten(ectx.out[1], 64)
+	vrt.Assert(ok1 && ok2, "encoder-output-type")
+	vrt.Assert(len(w1) == hdr+n1+tail && len(w2) == hdr+n2+tail, "adjacent-wire-length")
+	zzSameBytes(w1[hdr:hdr+n1], snap[:n1], "adjacent-body-1")
+	zzSameBytes(w2[hdr:hdr+n2], snap[n1:n1+n2], "adjacent-body-2")
+	vrt.Reach("c04-adjacent-done")
+}
